@@ -1259,6 +1259,10 @@ class SyncObj(object):
                             self.__transport.send(node, message)
                             if node not in self.__connectedNodes:
                                 break
+                        if node not in self.__connectedNodes:
+                            # the connection broke while the pieces were written: nothing more for this node
+                            # (a read-only node is forgotten altogether when it disconnects)
+                            break
                     else:
                         message = {
                             'type': 'append_entries',
